@@ -43,7 +43,7 @@ CHECKS['C19'] = dict(
                   dict(tu='c19_ops', group='ops4d', bounds=dict(S=4), shards=8),
                   dict(tu='c19_ops', group='views', bounds=dict(PX=4, BW=3, SH=6), shards=8),
                   dict(tu='c19_ops', group='stdfill', bounds=dict(PX=5, SH=6, SH16=3), shards=4)]),
-    witnesses_required=dict(all=['mask_excluded', 'limit_excluded', 'bin_collision', 'accumulate_added', 'replace_cleared',
+    witnesses_required=dict(all=['cumulative_nd_non_integral_bin', 'mask_excluded', 'limit_excluded', 'bin_collision', 'accumulate_added', 'replace_cleared',
                                  'dense_zero_bins', 'negative_key', 'bin_width_gt1', 'default_args_path', 'cumulative_1d',
                                  'cumulative_nd', 'sub_axes', 'sub_axes_merged_bins', 'sub_range_dropped', 'sub_range_kept',
                                  'std_vector', 'std_array', 'std_map', 'view:planar', 'view:transposed', 'view:subsampled',
